@@ -14,7 +14,7 @@ RULE = ("Files from independent per-format grammars (two-line and wrapped FASTA 
         "buffer types, SAM with optional tags, GTF, GFF3 with interior comments, GFA S-lines, pairs): 1..N records, field widths 1..W with "
         "single-character and very unequal widths, signed / zero-padded integers, decimal and scientific floats, '.' placeholders, header and "
         "comment lines, LF/CRLF, with and without final newline. Read eagerly and lazily through NumpyFileReader over BytesIO, and a seeded "
-        "sample through bnp.open on a real file. In a share of the cases another well-formed file is read first in the same process (the same bytes "
+        "sample through bnp.open on a real file (where bnp.count_entries must also give the number of records and bionumpy.io.files.read the same table). In a share of the cases another well-formed file is read first in the same process (the same bytes "
         "through another VCF buffer type; another file of the same format; for typed VCF a file declaring the same INFO keys and types with a "
         "different Number), and both reads are checked. Oracle: number of entries == number of records and every column equals the value computed "
         "from the text with plain Python (int, float within 8 ulp, verbatim strings, lists element by element, POS-1, typed INFO per header, "
@@ -57,9 +57,22 @@ def read_rows_path(data, fmt, lazy):
             f.write(data)
         fh = bnp.open(path, buffer_type=fmt.buffer, lazy=lazy)
         try:
-            return formats.table_rows(fh.read())
+            rows = formats.table_rows(fh.read())
         finally:
             fh.close()
+        # the library's own count of the entries of the file, and the one-call reader
+        n = bnp.count_entries(path, buffer_type=fmt.buffer)
+        if n != len(rows):
+            raise CountMismatch(f"count_entries says {n}, read() returned {len(rows)} entries")
+        from bionumpy.io.files import read as read_file
+        again = formats.table_rows(read_file(path, buffer_type=fmt.buffer))
+        if formats.first_row_diff(rows, again, 0) is not None:
+            raise CountMismatch(f"bionumpy.io.files.read differs from open().read(): {formats.first_row_diff(rows, again, 0)}")
+        return rows
+
+
+class CountMismatch(Exception):
+    pass
 
 
 def _widths(case):
@@ -139,6 +152,8 @@ def check(case, stats=None):
             if pdiff is not None:
                 return [Failure(_bucket_for(prior, pdiff), dict(pdiff, in_prior_file=True))]
         rows = read_rows_path(data, fmt, lazy) if case.get("via_path") else read_rows(data, fmt, lazy)
+    except CountMismatch as e:
+        return [Failure(f"C02:count_entries-or-read-disagrees:{case['fmt']}", {"error": str(e)[:400]})]
     except Exception as e:
         import traceback
         tb = traceback.extract_tb(e.__traceback__)
@@ -166,7 +181,7 @@ def plain_case(draw, fmt, max_records, W):
         if fmt in ("wig", "gff"):
             case["header"] = [h.replace("\t", " ") for h in case["header"]]
     case["lazy"] = draw(st.booleans()) if formats.FORMATS[fmt].lazy else False
-    if draw(st.integers(0, 14)) == 0:
+    if draw(st.integers(0, 7)) == 0:
         case["via_path"] = True
     if draw(st.integers(0, 7)) == 0:
         case["prior"] = draw(S.file_case(fmt, 1, 3, W, canonical=False))
